@@ -53,134 +53,101 @@ def canon(head, atoms):
     return table[k]
 
 
+_enforce_cache = {}
+
+
+def closure_of(pairs, worlds, clauses):
+    "least relation containing `pairs` on `worlds` closed under the clause set (SERIAL: one fresh world for all dead ends)"
+    R = set(pairs)
+    W = set(worlds)
+    if SERIAL in clauses:
+        dead = sorted(w for w in W if not any(a == w for a, b in R))
+        if dead:
+            new = max(W) + 1
+            R |= {(d, new) for d in dead} | {(new, new)}
+            W.add(new)
+    changed = True
+    while changed:
+        changed = False
+        add = set()
+        if REFL in clauses:
+            add |= {(w, w) for w in W}
+        if SYMM in clauses:
+            add |= {(b, a) for a, b in R}
+        if TRANS in clauses:
+            add |= {(a, d) for a, b in R for c, d in R if b == c}
+        if not add <= R:
+            R |= add
+            changed = True
+    return R, W
+
+
 def enforce_clauses(m: Model, cls: ClassRef, seen=None):
-    """(clauses, info) for cls.enforce including what it inherits through super().enforce()."""
-    fn, owner = m.method(cls, 'enforce')
-    if not isinstance(fn, FuncRef):
-        raise Unsupported(f'{cls}.enforce not found')
-    return _enforce_fn(m, fn, owner, cls)
-
-
-def _enforce_fn(m, fn: FuncRef, owner: ClassRef, cls: ClassRef):
-    node = fn.node
-    where = m.floc(fn)
-    body = astq.stmts(node)
-    info = dict(where=[where], fixpoint=False, supercall_in_loop=False, problems=[])
+    """(clauses, info): which frame conditions `cls.enforce` (folded through the class's MRO, super() included) establishes.
+    The definition is run on every relation over the worlds {0,1,2} (and world 0 always present); a condition belongs to
+    the class iff every result satisfies it; the result must be exactly the least closure of the input under those
+    conditions (nothing lost, nothing extra) -- otherwise `info['problems']` says on which relation it is not."""
+    import itertools
+    from collections import defaultdict
+    from .bind import bound_class
+    from .minieval import Interp, Raised
+    key = (id(m), cls)
+    if key in _enforce_cache:
+        return _enforce_cache[key]
+    consulted = set()
+    it = Interp({}, where=f'{cls.qualname}.enforce')
+    AC = bound_class(m, it, cls, base=defaultdict, consulted=consulted)
+    worlds = (0, 1, 2)
+    allpairs = [(a, b) for a in worlds for b in worlds]
+    results = []
+    info = dict(where=[], fixpoint=True, supercall_in_loop=True, problems=[])
+    graphs = [pairs for r in range(0, 6) for pairs in itertools.combinations(allpairs, r)]   # every shape of fork / chain / cycle on three worlds
+    # chains and trees on four / five worlds: closures that need more than one pass
+    graphs += [((0, 1), (1, 2), (2, 3)), ((0, 1), (1, 2), (2, 3), (3, 4)), ((0, 1), (0, 2), (2, 3)), ((1, 0), (2, 1), (3, 2)), ((0, 1), (2, 1), (2, 3)),
+               ((0, 1), (1, 2), (2, 3), (3, 0))]
+    for pairs in graphs:
+        if True:
+            R = AC(set)
+            R[0]
+            for a, b in pairs:
+                R[a].add(b)
+                R[b]
+            W0 = set(R)
+            try:
+                R.enforce()
+            except Raised as e:
+                info['problems'].append(f'enforce() raises {e.text} on {sorted(pairs)}')
+                continue
+            except (TypeError, KeyError, AttributeError, ValueError, RuntimeError) as e:
+                info['problems'].append(f'enforce() raises {type(e).__name__}: {e} on {sorted(pairs)}')
+                continue
+            out = {(a, b) for a, bs in R.items() for b in bs}
+            results.append((frozenset(pairs), frozenset(W0), frozenset(out), frozenset(set(R) | {b for _, b in out})))
+    info['where'] = sorted(consulted)
     clauses = set()
-    if len(body) == 1 and isinstance(body[0], ast.Pass):
-        return frozenset(), info
-    src = ast.unparse(node)
-    # serial form (no loop nest over successors: a comprehension of dead ends)
-    if 'needs_world' in src or ('max(self) + 1' in src):
-        need = ['{w for w in self if not self[w]}', 'max(self) + 1']
-        if not all(x in src for x in need):
-            raise Unsupported(f'{where}: serial enforce not in the recognised form')
-        adds = [astq.u(c) for c in astq.calls(node) if astq.call_name(c) in ('add', 'self.add')]
-        if sorted(adds) != sorted(['add((w1, w2))', 'add((w2, w2))']) or 'for w1 in needs_world' not in src \
-                or 'add = self.add' not in src:
-            raise Unsupported(f'{where}: serial enforce adds {adds}')
-        # the additions must be conditional on there being a dead end
-        return frozenset({SERIAL}), info
-    aliases = {'self.add': 'direct'}
-    deferred = None
-    flushed = False
-
-    def visit(stmts, loops, in_while):
-        nonlocal deferred, flushed
-        for st in stmts:
-            if isinstance(st, ast.While):
-                if astq.u(st.test) != 'True':
-                    raise Unsupported(f'{where}: while {astq.u(st.test)}')
-                info['fixpoint'] = True
-                visit(st.body, loops, True)
-                if not any(isinstance(x, ast.If) and isinstance(x.body[-1], ast.Break) and astq.u(x.test) == 'not to_add'
-                           for x in st.body):
-                    info['problems'].append('the closure loop does not run until nothing new is added (`if not to_add: break` is gone)')
-                if any(isinstance(x, ast.Break) for x in st.body):
-                    info['fixpoint'] = False
-                    info['problems'].append('the closure loop breaks unconditionally: a single pass, not a fixpoint')
-                continue
-            if isinstance(st, ast.For):
-                it = astq.u(st.iter)
-                if astq.u(st.target) == '_' and it == 'map(self.add, to_add)':
-                    flushed = True
-                    continue
-                if not isinstance(st.target, ast.Name):
-                    raise Unsupported(f'{where}: loop target {astq.u(st.target)}')
-                v = st.target.id
-                if it == 'self':
-                    visit(st.body, loops + [('W', v)], in_while)
-                elif isinstance(st.iter, ast.Subscript) and astq.u(st.iter.value) == 'self' and isinstance(st.iter.slice, ast.Name):
-                    visit(st.body, loops + [('R', st.iter.slice.id, v)], in_while)
-                else:
-                    raise Unsupported(f'{where}: loop over {it}')
-                continue
-            if isinstance(st, ast.Assign) and len(st.targets) == 1 and isinstance(st.targets[0], ast.Name):
-                t, val = st.targets[0].id, astq.u(st.value)
-                if val == 'set()':
-                    deferred = t
-                    continue
-                if val == f'{deferred}.add':
-                    aliases[t] = 'deferred'
-                    continue
-                if val == 'self.add':
-                    aliases[t] = 'direct'
-                    continue
-                raise Unsupported(f'{where}: assignment {astq.u(st)}')
-            if isinstance(st, ast.If):
-                # redundancy guard `if X not in self[Y]:` protecting exactly the head (Y, X)
-                if isinstance(st.body[-1], ast.Break):
-                    continue
-                t = st.test
-                ok = isinstance(t, ast.Compare) and len(t.ops) == 1 and isinstance(t.ops[0], ast.NotIn) \
-                    and isinstance(t.left, ast.Name) and isinstance(t.comparators[0], ast.Subscript) \
-                    and astq.u(t.comparators[0].value) == 'self' and isinstance(t.comparators[0].slice, ast.Name)
-                if not ok or st.orelse:
-                    raise Unsupported(f'{where}: guard `{astq.u(t)}`')
-                guard_head = (t.comparators[0].slice.id, t.left.id)
-                for x in st.body:
-                    handle_add(x, loops, guard_head)
-                continue
-            handle_add(st, loops, None)
-
-    def handle_add(st, loops, guard_head):
-        if isinstance(st, (ast.Pass, ast.Break)):
-            return
-        if isinstance(st, ast.Expr) and isinstance(st.value, ast.Call):
-            c = st.value
-            name = astq.call_name(c)
-            if name == 'super().enforce':
-                return
-            if name in aliases and len(c.args) == 1 and isinstance(c.args[0], ast.Tuple) and len(c.args[0].elts) == 2 \
-                    and all(isinstance(e, ast.Name) for e in c.args[0].elts):
-                head = tuple(e.id for e in c.args[0].elts)
-                if guard_head is not None and guard_head != head:
-                    raise Unsupported(f'{where}: guard protects {guard_head} but {head} is added')
-                clauses.add(canon(head, loops))
-                return
-        raise Unsupported(f'{where}: statement `{astq.u(st)[:60]}`')
-
-    visit(body, [], False)
-    if 'deferred' in aliases.values() and not flushed:
-        raise Unsupported(f'{where}: collected pairs are never added to the relation')
-    inherited = frozenset()
-    supers = [c for c in astq.calls(node) if astq.call_name(c) == 'super().enforce']
-    if supers:
-        mro = m.mro(cls)
-        pfn, powner = m.method(cls, 'enforce', after=owner)
-        if isinstance(pfn, FuncRef):
-            inherited, pinfo = _enforce_fn(m, pfn, powner, cls)
-            info['where'] += pinfo['where']
-            info['problems'] += pinfo['problems']
-        if info['fixpoint']:
-            pm = astq.parent_map(node)
-            info['supercall_in_loop'] = all(astq.enclosing(pm, c, ast.While) is not None for c in supers)
-    if (TRANS in clauses or SYMM in clauses) and not info['fixpoint']:
-        info['problems'].append(f'{fn.qualname}: transitive/symmetric closure computed in a single pass, not to a fixpoint')
-    if info['fixpoint'] and inherited and not info['supercall_in_loop']:
-        info['problems'].append(f'{fn.qualname}: the inherited closure ({sorted(c[0] for c in inherited)}) is applied once outside the fixpoint loop: '
-                                f'pairs that become derivable only after this class adds its own are never added')
-    return frozenset(clauses) | inherited, info
+    if results:
+        if all(all(any(a == w for a, b in out) for w in W) for _, _, out, W in results):
+            clauses.add(SERIAL)
+        if all(all((w, w) in out for w in W) for _, _, out, W in results):
+            clauses.add(REFL)
+        if all(all((b, a) in out for a, b in out) for _, _, out, W in results):
+            clauses.add(SYMM)
+        if all(all((a, d) in out for a, b in out for c, d in out if b == c) for _, _, out, W in results):
+            clauses.add(TRANS)
+        if REFL in clauses:
+            clauses.discard(SERIAL)     # reflexive relations are serial; the class is named by the stronger condition
+        bad = 0
+        for pairs, W0, out, W in results:
+            want, _ = closure_of(pairs, W0, clauses)
+            if out != want and bad < 3:
+                bad += 1
+                miss, extra = sorted(want - out), sorted(out - want)
+                info['problems'].append(f'on the relation {sorted(pairs)} enforce() yields {sorted(out)}: '
+                                        + (f'lacks {miss} of the {sorted(c[0] for c in clauses)} closure' if miss else '')
+                                        + (f' adds {extra} beyond it' if extra else ''))
+    out_ = (frozenset(clauses), info)
+    _enforce_cache[key] = out_
+    return out_
 
 
 # ---- frame rules (tableau side) ----------------------------------------------
@@ -214,26 +181,14 @@ def rule_clause(sch, basename):
 
 
 def helper_semantics_ok(m: Model):
-    """The two helper queries the frame-rule schemas rely on:
-    WorldIndex.intransitives(branch,(w1,w2)) = worlds seen by w2 and not by w1;
-    UnserialWorlds tracks worlds w with no access node <w, _> on the branch."""
+    """The helper queries the frame-rule schemas rely on (WorldIndex.intransitives / has, UnserialWorlds), folded
+    (sa.helpersfold): [(ok, what, where)]."""
+    from . import helpersfold
     out = []
-    fn = m.func(HELPERS, 'WorldIndex.intransitives')
-    src = ast.unparse(fn)
-    ok = 'access = self[branch]' in src and 'filterfalse(access[pair[0]].__contains__, access[pair[1]])' in src
-    out.append((ok, 'WorldIndex.intransitives', m.loc(HELPERS, fn)))
-    fn = m.func(HELPERS, 'WorldIndex.listen_on')
-    src = ast.unparse(fn)
-    ok = 'w1, w2 = node.pair()' in src and 'self[branch][w1].add(w2)' in src and 'isinstance(node, AccessNode)' in src
-    out.append((ok, 'WorldIndex.listen_on', m.loc(HELPERS, fn)))
-    fn = m.func(HELPERS, 'UnserialWorlds.listen_on')
-    src = ast.unparse(fn)
-    ok = all(x in src for x in ('for w in node.worlds()', 'node.get(Node.Key.world1) == w', 'branch.has({Node.Key.world1: w})',
-                                'self[branch].discard(w)', 'self[branch].add(w)'))
-    out.append((ok, 'UnserialWorlds.listen_on', m.loc(HELPERS, fn)))
-    fn = m.func(HELPERS, 'WorldIndex.has')
-    ok = 'return pair[1] in self[branch][pair[0]]' in ast.unparse(fn)
-    out.append((ok, 'WorldIndex.has', m.loc(HELPERS, fn)))
+    for fold in (helpersfold.fold_world_index, helpersfold.fold_unserial):
+        res, cons = fold(m)
+        bad = [f'{case}: {detail}' for ok, case, detail in res if not ok]
+        out.append((not bad, fold.__name__[5:] + ('' if not bad else ' -- ' + bad[0][:200]), cons[0].split(' ')[0] if cons else 'pytableaux/proof/helpers.py'))
     return out
 
 
